@@ -14,6 +14,21 @@ use crate::{
     mem::{Lcg, MemCfg},
 };
 
+/// A reader that hands out at most `chunk` bytes per `read` call, as a streaming decompressor does.
+struct Chunked<'a> {
+    data: &'a [u8],
+    chunk: usize,
+}
+
+impl std::io::Read for Chunked<'_> {
+    fn read(&mut self, buf: &mut [u8]) -> std::io::Result<usize> {
+        let n = buf.len().min(self.chunk).min(self.data.len());
+        buf[..n].copy_from_slice(&self.data[..n]);
+        self.data = &self.data[n..];
+        Ok(n)
+    }
+}
+
 fn enc_case<T: Code + PartialEq + std::fmt::Debug>(ty: &str, v: &T, bits_equal: impl Fn(&T, &T) -> bool, out: &mut Vec<J>) {
     let mut full = vec![];
     if v.encode(&mut full).is_err() {
@@ -21,10 +36,21 @@ fn enc_case<T: Code + PartialEq + std::fmt::Debug>(ty: &str, v: &T, bits_equal: 
         return;
     }
     let n = full.len();
-    let rt = match T::decode(&mut &full[..]) {
+    let mut rt = match T::decode(&mut &full[..]) {
         Ok(x) => bits_equal(&x, v),
         Err(_) => false,
     };
+    // the same bytes through readers that return short reads (what a decompressor in front of the decoder does)
+    for chunk in [1usize, 7, 4096, 32 * 1024] {
+        if chunk >= n && chunk != 1 {
+            continue;
+        }
+        rt = rt
+            && match T::decode(&mut Chunked { data: &full[..], chunk }) {
+                Ok(x) => bits_equal(&x, v),
+                Err(_) => false,
+            };
+    }
     let mut ds = vec![n, n + 1, n + 7];
     if n > 0 {
         ds.push(n - 1);
